@@ -20,6 +20,7 @@ class C01Spec(Spec):
     prop = PROP
     invariants = INVARIANTS
     churn_share = 0.4          # share of leader-churn runs (sched.apply_churn); 0 in specs that build on this draw
+    guide_share = 0.25         # share of the churn runs that start with the guided late-acknowledgement schedule
 
     def draw(self, rng, tier='quick'):
         cfg = draw_common(rng, compaction=(rng.random() < 0.8))
@@ -43,6 +44,12 @@ class C01Spec(Spec):
         if self.churn_share and rng.random() < self.churn_share:
             apply_churn(rng, cfg)
             cfg['n_voters'] = rng.choice([3, 3, 3, 5])
+            if rng.random() < self.guide_share:
+                # guided "late acknowledgement" schedule (five voters), see Scheduler._guide_stale_ack
+                apply_guide_stale_ack(rng, cfg)
+                s['w_rst'] = 0.0
+                s['w_hold'] = 0.0
+                s['w_stall'] = 0.0
         return cfg
 
     def nontrivial(self, res):
